@@ -145,9 +145,12 @@ func c09ValueFor(r *rand.Rand, kind string, pBad int) string {
 		}
 		return []string{"true", "false", "1", "0", "T", "f"}[r.Intn(6)]
 	case "unm", "multi":
-		if bad {
-			return "!no"
+		if bad { // the unmarshaler's error value varies with the text (plain, *HTTPError 500 / 502 / 415 / 404, wrapped)
+			return []string{"!no", "!500", "!502", "!415", "!404", "!wrap", "!400"}[r.Intn(7)]
 		}
+	}
+	if r.Intn(16) == 0 { // the key is sent, its value is EMPTY (`?name=`): it still overrides
+		return ""
 	}
 	if r.Intn(150) == 0 { // a value longer than a read buffer
 		return strings.Repeat("long", 160) + fmt.Sprint(r.Intn(10))
@@ -455,6 +458,16 @@ func c09GenCase(r *rand.Rand) *c09Case {
 			c.RawTail = c.RawTail[1:]
 		}
 	}
+	switch r.Intn(10) { // parts of the framework supplied by the application
+	case 0:
+		c.Serial = "raw"
+	case 1:
+		c.Serial = "strict"
+	case 2:
+		c.Binder = "delegate"
+	case 3:
+		c.Serial, c.Binder = "raw", "delegate"
+	}
 	switch k := r.Intn(100); { // how the length of the body is (not) declared
 	case k < 12:
 		c.LenMode = "unknown"
@@ -575,8 +588,125 @@ func c09Gen(r *rand.Rand, tier string) []any {
 	out = append(out, c09FilesBlock(r)...)
 	out = append(out, c09ProcessBlock(r)...)
 	out = append(out, c09LengthBlock(r)...)
+	out = append(out, c09Round7Block(r)...)
 	for i := 0; i < n; i++ {
 		out = append(out, c09GenCase(r))
+	}
+	return out
+}
+
+// deterministic block of round 7:
+//
+//	(a) present-but-empty values: every leaf of the catalogue / twin types that is tagged for two
+//	    sources gets a non-empty value from the earlier and `key=` from the later one (path < query,
+//	    path < form, query-as-form < body); and `key=` alone into a pre-populated destination;
+//	(b) JSON bodies (good, truncated, type mismatch, unknown field) x {default, raw, strict}
+//	    serializer x {default, delegating} binder: malformed JSON is a 400 whoever decodes it;
+//	(c) malformed values for tagged fields of NESTED untagged structs, per source: never silent
+func c09Round7Block(r *rand.Rand) []any {
+	var out []any
+	type dl struct {
+		dest   string
+		leaves []c09GenLeaf
+	}
+	var dls []dl
+	for _, n := range c09CatNames {
+		dls = append(dls, dl{"cat:" + n, c09CatLeaves(n)})
+	}
+	for _, fam := range c09TwinFamilyNames {
+		for k, t := range c09TwinFamilies[fam] {
+			dls = append(dls, dl{fmt.Sprintf("twin:%s:%d", fam, k), c09TypeLeaves(t)})
+		}
+	}
+	for _, d := range dls {
+		for _, lf := range d.leaves {
+			full := func() string { return c09ValueFor(r, lf.Kind, 0) }
+			nonEmpty := func() string {
+				for i := 0; i < 10; i++ {
+					if v := full(); v != "" {
+						return v
+					}
+				}
+				return "1"
+			}
+			p, q, f := lf.Tags["param"], lf.Tags["query"], lf.Tags["form"]
+			if p != "" && q != "" {
+				out = append(out, &c09Case{Dest: d.dest, InitSeed: r.Int63(), Op: "bind", Method: []string{"GET", "DELETE"}[r.Intn(2)], BodyKind: "none",
+					Params: []c09KV{{K: p, V: []string{nonEmpty()}}}, Query: []c09KV{{K: q, V: []string{""}}}})
+			}
+			if p != "" && f != "" {
+				out = append(out, &c09Case{Dest: d.dest, InitSeed: r.Int63(), Op: "bind", Method: "POST", BodyKind: "form", CType: "application/x-www-form-urlencoded",
+					Params: []c09KV{{K: p, V: []string{nonEmpty()}}}, Form: []c09KV{{K: f, V: []string{""}}}})
+			}
+			if q != "" && f != "" {
+				out = append(out, &c09Case{Dest: d.dest, InitSeed: r.Int63(), Op: "bind", Method: "GET", BodyKind: "multipart", CType: c09MultipartCT,
+					Query: []c09KV{{K: q, V: []string{nonEmpty()}}}, Form: []c09KV{{K: f, V: []string{""}}}})
+			}
+			for _, src := range c09Sources { // `key=` alone: the field ends up zero whatever it held
+				t := lf.Tags[src]
+				if t == "" {
+					continue
+				}
+				c := &c09Case{Dest: d.dest, InitSeed: r.Int63()}
+				kv := []c09KV{{K: t, V: []string{""}}}
+				switch src {
+				case "param":
+					c.Op, c.Params = "param", kv
+				case "query":
+					c.Op, c.Query = "query", kv
+				case "header":
+					c.Op, c.Header = "header", kv
+				default:
+					c.Op, c.Method, c.Form, c.BodyKind, c.CType = "body", "POST", kv, "form", "application/x-www-form-urlencoded"
+				}
+				out = append(out, c)
+			}
+		}
+	}
+	// (b)
+	bodies := []string{`{"id":5,"name":"j"}`, `{"id":5,"name":"j"`, `{"id":"x"}`, `{"id":5,"unknown_field":1}`, `[1,2]`, ``, `{"id":5} trailing`, `nope`}
+	for _, dest := range []string{"cat:mass", "cat:unmarshalers", "map:str"} {
+		for _, body := range bodies {
+			for _, ser := range []string{"", "raw", "strict"} {
+				for _, bnd := range []string{"", "delegate"} {
+					out = append(out, &c09Case{Dest: dest, InitSeed: r.Int63(), Op: []string{"bind", "body"}[r.Intn(2)], Method: []string{"POST", "PUT"}[r.Intn(2)],
+						Serial: ser, Binder: bnd, BodyKind: "raw", CType: "application/json", Body: body,
+						LenMode: []string{"", "", "unknown"}[r.Intn(3)], Params: []c09KV{{K: "id", V: []string{"1"}}}})
+				}
+			}
+		}
+	}
+	// (c) struct { ID int `…:"id"`; Page struct { Sort string; Limit int; Cursor string } (untagged) ; After string }
+	nested := func(src string) []c09Field {
+		tg := func(n string) map[string]string { return map[string]string{src: n} }
+		return []c09Field{{Name: "ID", Kind: "int", Tags: tg("id")},
+			{Name: "Page", Kind: "struct", Tags: map[string]string{}, Sub: []c09Field{{Name: "Sort", Kind: "string", Tags: tg("sort")},
+				{Name: "Limit", Kind: "int", Tags: tg("limit")}, {Name: "Flag", Kind: "bool", Tags: tg("flag")}, {Name: "U", Kind: "unm", Tags: tg("u")},
+				{Name: "Deep", Kind: "struct", Tags: map[string]string{}, Sub: []c09Field{{Name: "N", Kind: "int8", Tags: tg("n")}}},
+				{Name: "Cursor", Kind: "string", Tags: tg("cursor")}}},
+			{Name: "After", Kind: "string", Tags: tg("after")}}
+	}
+	for _, src := range c09Sources {
+		for _, badKey := range []string{"limit", "flag", "u", "n"} {
+			kv := []c09KV{{K: "id", V: []string{"5"}}, {K: "sort", V: []string{"asc"}}, {K: "cursor", V: []string{"abc"}}, {K: "after", V: []string{"z"}},
+				{K: badKey, V: []string{map[string]string{"limit": "ten", "flag": "maybe", "u": "!500", "n": "128"}[badKey]}}}
+			c := &c09Case{Dest: "struct", Fields: nested(src), InitSeed: r.Int63()}
+			switch src {
+			case "param":
+				c.Op, c.Params = []string{"param", "bind"}[r.Intn(2)], kv
+				c.Method = "GET"
+			case "query":
+				c.Op, c.Query, c.Method = []string{"query", "bind"}[r.Intn(2)], kv, "GET"
+			case "header":
+				c.Op, c.Header = "header", kv
+			default:
+				c.Op, c.Method, c.Form, c.BodyKind, c.CType = "bind", "POST", kv, "form", "application/x-www-form-urlencoded"
+			}
+			if c.Op == "bind" && c.BodyKind == "" {
+				c.BodyKind = "none"
+			}
+			out = append(out, c)
+		}
 	}
 	return out
 }
@@ -958,6 +1088,11 @@ func c09Shrink(ci any) []any {
 	if c.RawTail != "" {
 		d := *c
 		d.RawTail = ""
+		out = append(out, &d)
+	}
+	if c.Serial != "" || c.Binder != "" {
+		d := *c
+		d.Serial, d.Binder = "", ""
 		out = append(out, &d)
 	}
 	if (c.Op == "bind" || c.Op == "body") && c.BodyKind != "none" && c.BodyKind != "" {
